@@ -163,7 +163,15 @@ static int fi_applicable(const char* name, int e, const char* attr, int fd) {
 }
 
 /* attr: string of flags for the record ("n" non-blocking fd, "s" socket) */
-static int fi_hit(const char* name, int fd) {
+/* An interrupted call that is issued again must carry the same arguments.  [ident] identifies the
+   object of the call (descriptor, buffer, path), [rest] the other arguments (length, flags, offset);
+   ident == 0: not tracked.  Checked when the very next fault point of that thread class is the same
+   call on the same object right after an injected EINTR. */
+static struct { int pending, id; unsigned long ident, rest; long seq; } fi_intr[2];
+static long fi_seq_cls[2];
+static int fi_hit_args(const char* name, int fd, unsigned long ident, unsigned long rest);
+static int fi_hit(const char* name, int fd) { return fi_hit_args(name, fd, 0, 0); }
+static int fi_hit_args(const char* name, int fd, unsigned long ident, unsigned long rest) {
   int cls, id, idx, e = 0, i;
   char attr[8] = "";
   int force = 0, creates;
@@ -173,6 +181,14 @@ static int fi_hit(const char* name, int fd) {
   fi_lock(&old);
   id = fi_name_id(name);
   idx = fi_cnt[cls][id]++;
+  fi_seq_cls[cls]++;
+  if (fi_intr[cls].pending && fi_intr[cls].id == id && fi_intr[cls].seq + 1 == fi_seq_cls[cls] &&
+      ident != 0 && fi_intr[cls].ident == ident && fi_intr[cls].rest != rest) {
+    char t[160];
+    snprintf(t, sizeof t, "RETRYARGS:%s:%lx->%lx ", name, fi_intr[cls].rest, rest);
+    buf_add(&ev_buf, &ev_len, &ev_cap, t);
+  }
+  fi_intr[cls].pending = 0;
   for (i = 0; i < fi_nfaults; i++) {
     struct fault* f = &fi_faults[i];
     if (f->cls != cls || f->id != id) continue;
@@ -206,6 +222,7 @@ static int fi_hit(const char* name, int fd) {
              cls ? "-" : fi_api, e ? "=" : "", e ? name_of_err(e) : "");
     buf_add(&pt_buf, &pt_len, &pt_cap, t);
   }
+  if (e == EINTR) { fi_intr[cls].pending = 1; fi_intr[cls].id = id; fi_intr[cls].ident = ident; fi_intr[cls].rest = rest; fi_intr[cls].seq = fi_seq_cls[cls]; }
   if (e) { fi_fired++; snprintf(fi_last, sizeof fi_last, "%c.%s#%d=%s", cls ? 'W' : 'M', name, idx, name_of_err(e)); }
   fi_unlock(&old);
   return e;
@@ -279,15 +296,17 @@ static void fi_free(void* p) {
 
 /* ---- wrapped calls ------------------------------------------------------ */
 #define FAIL_IF(name, fd, failret) do { int e_ = fi_hit(name, fd); if (e_) { errno = e_; return failret; } } while (0)
+#define FAIL_IFA(name, fd, ident, rest, failret) do { int e_ = fi_hit_args(name, fd, (unsigned long) (ident), (unsigned long) (rest)); if (e_) { errno = e_; return failret; } } while (0)
+#define ID2(a, b) ((((unsigned long) (a) + 1) * 0x9e3779b97f4a7c15UL) ^ (unsigned long) (b) ^ 1UL)
 
 int __real_socket(int, int, int);
 int __wrap_socket(int a, int b, int c) { FAIL_IF("socket", -1, -1); return __real_socket(a, b, c); }
 int __real_socketpair(int, int, int, int*);
 int __wrap_socketpair(int a, int b, int c, int* d) { FAIL_IF("socketpair", -1, -1); return __real_socketpair(a, b, c, d); }
 int __real_accept4(int, struct sockaddr*, socklen_t*, int);
-int __wrap_accept4(int a, struct sockaddr* b, socklen_t* c, int d) { FAIL_IF("accept4", a, -1); return __real_accept4(a, b, c, d); }
+int __wrap_accept4(int a, struct sockaddr* b, socklen_t* c, int d) { FAIL_IFA("accept4", a, ID2(a, 7), d, -1); return __real_accept4(a, b, c, d); }
 int __real_connect(int, const struct sockaddr*, socklen_t);
-int __wrap_connect(int a, const struct sockaddr* b, socklen_t c) { FAIL_IF("connect", a, -1); return __real_connect(a, b, c); }
+int __wrap_connect(int a, const struct sockaddr* b, socklen_t c) { FAIL_IFA("connect", a, ID2(a, b), c, -1); return __real_connect(a, b, c); }
 int __real_pipe2(int*, int);
 int __wrap_pipe2(int* a, int b) { FAIL_IF("pipe2", -1, -1); return __real_pipe2(a, b); }
 int __real_eventfd(unsigned, int);
@@ -308,7 +327,7 @@ int __real_open64(const char*, int, ...);
 int __wrap_open64(const char* p, int fl, ...) {
   mode_t m = 0;
   if (fl & (O_CREAT | O_TMPFILE)) { va_list ap; va_start(ap, fl); m = va_arg(ap, mode_t); va_end(ap); }
-  FAIL_IF("open", -1, -1);
+  FAIL_IFA("open", -1, ID2(p, 3), (unsigned long) fl ^ ((unsigned long) m << 32), -1);
   return __real_open64(p, fl, m);
 }
 int __real_dup2(int, int);
@@ -320,25 +339,25 @@ int __wrap_inotify_init1(int a) { FAIL_IF("inotify_init1", -1, -1); return __rea
 int __real_inotify_add_watch(int, const char*, uint32_t);
 int __wrap_inotify_add_watch(int a, const char* b, uint32_t c) { FAIL_IF("inotify_add_watch", -1, -1); return __real_inotify_add_watch(a, b, c); }
 ssize_t __real_read(int, void*, size_t);
-ssize_t __wrap_read(int a, void* b, size_t c) { FAIL_IF("read", a, -1); return __real_read(a, b, c); }
+ssize_t __wrap_read(int a, void* b, size_t c) { FAIL_IFA("read", a, ID2(a, b), c, -1); return __real_read(a, b, c); }
 ssize_t __real_readv(int, const struct iovec*, int);
-ssize_t __wrap_readv(int a, const struct iovec* b, int c) { FAIL_IF("readv", a, -1); return __real_readv(a, b, c); }
+ssize_t __wrap_readv(int a, const struct iovec* b, int c) { FAIL_IFA("readv", a, ID2(a, b), c, -1); return __real_readv(a, b, c); }
 ssize_t __real_write(int, const void*, size_t);
-ssize_t __wrap_write(int a, const void* b, size_t c) { FAIL_IF("write", a, -1); return __real_write(a, b, c); }
+ssize_t __wrap_write(int a, const void* b, size_t c) { FAIL_IFA("write", a, ID2(a, b), c, -1); return __real_write(a, b, c); }
 ssize_t __real_writev(int, const struct iovec*, int);
-ssize_t __wrap_writev(int a, const struct iovec* b, int c) { FAIL_IF("writev", a, -1); return __real_writev(a, b, c); }
+ssize_t __wrap_writev(int a, const struct iovec* b, int c) { FAIL_IFA("writev", a, ID2(a, b), c, -1); return __real_writev(a, b, c); }
 ssize_t __real_sendmsg(int, const struct msghdr*, int);
-ssize_t __wrap_sendmsg(int a, const struct msghdr* b, int c) { FAIL_IF("sendmsg", a, -1); return __real_sendmsg(a, b, c); }
+ssize_t __wrap_sendmsg(int a, const struct msghdr* b, int c) { FAIL_IFA("sendmsg", a, ID2(a, b), c, -1); return __real_sendmsg(a, b, c); }
 ssize_t __real_recvmsg(int, struct msghdr*, int);
-ssize_t __wrap_recvmsg(int a, struct msghdr* b, int c) { FAIL_IF("recvmsg", a, -1); return __real_recvmsg(a, b, c); }
+ssize_t __wrap_recvmsg(int a, struct msghdr* b, int c) { FAIL_IFA("recvmsg", a, ID2(a, b), c, -1); return __real_recvmsg(a, b, c); }
 int __real_sendmmsg(int, struct mmsghdr*, unsigned, int);
 int __wrap_sendmmsg(int a, struct mmsghdr* b, unsigned c, int d) { FAIL_IF("sendmmsg", a, -1); return __real_sendmmsg(a, b, c, d); }
 int __real_recvmmsg(int, struct mmsghdr*, unsigned, int, struct timespec*);
 int __wrap_recvmmsg(int a, struct mmsghdr* b, unsigned c, int d, struct timespec* e) { FAIL_IF("recvmmsg", a, -1); return __real_recvmmsg(a, b, c, d, e); }
 ssize_t __real_pread64(int, void*, size_t, off_t);
-ssize_t __wrap_pread64(int a, void* b, size_t c, off_t d) { FAIL_IF("pread", -1, -1); return __real_pread64(a, b, c, d); }
+ssize_t __wrap_pread64(int a, void* b, size_t c, off_t d) { FAIL_IFA("pread", -1, ID2(a, b), (unsigned long) c ^ ((unsigned long) d * 31), -1); return __real_pread64(a, b, c, d); }
 ssize_t __real_pwrite64(int, const void*, size_t, off_t);
-ssize_t __wrap_pwrite64(int a, const void* b, size_t c, off_t d) { FAIL_IF("pwrite", -1, -1); return __real_pwrite64(a, b, c, d); }
+ssize_t __wrap_pwrite64(int a, const void* b, size_t c, off_t d) { FAIL_IFA("pwrite", -1, ID2(a, b), (unsigned long) c ^ ((unsigned long) d * 31), -1); return __real_pwrite64(a, b, c, d); }
 pid_t __real_fork(void);
 pid_t __wrap_fork(void) {
   pid_t p;
@@ -348,11 +367,11 @@ pid_t __wrap_fork(void) {
   return p;
 }
 pid_t __real_waitpid(pid_t, int*, int);
-pid_t __wrap_waitpid(pid_t a, int* b, int c) { FAIL_IF("waitpid", -1, -1); return __real_waitpid(a, b, c); }
+pid_t __wrap_waitpid(pid_t a, int* b, int c) { FAIL_IFA("waitpid", -1, ID2(a, b), c, -1); return __real_waitpid(a, b, c); }
 int __real_ioctl(int, unsigned long, ...);
 int __wrap_ioctl(int a, unsigned long b, ...) {
   void* p; va_list ap; va_start(ap, b); p = va_arg(ap, void*); va_end(ap);
-  FAIL_IF("ioctl", -1, -1);
+  FAIL_IFA("ioctl", -1, ID2(a, 5), b, -1);
   return __real_ioctl(a, b, p);
 }
 void* __real_mmap64(void*, size_t, int, int, int, off_t);
@@ -402,7 +421,8 @@ long __wrap_syscall(long nr, ...) {
   default: break;
   }
   if (name) {
-    e = fi_hit(name, -1);
+    e = fi_hit_args(name, -1, nr == SYS_getrandom ? ID2(a[0], nr) : 0,
+                    (unsigned long) a[1] ^ ((unsigned long) a[2] << 20));
     if (e) {
       /* Linux: close() interrupted by a signal has still closed the descriptor */
       if (nr == SYS_close) __real_syscall(nr, a[0]);
